@@ -16,7 +16,7 @@
    with the asynchronous prefetch goroutine in the order [ls] ([ncalls ls] = number of consumer
    calls in it).  [spec_rows], [spec_end], [spec_states] (Spec.v) say which rows must be seen,
    how the iteration must end and which paging state each request must carry. *)
-From GocqlV Require Import Lib.Base C15.Model C15.Spec C15.Proofs1 C15.Proofs2 C15.Proofs3 C15.Proofs4.
+From GocqlV Require Import Lib.Base C15.Model C15.Spec C15.Proofs1 C15.Proofs2 C15.Proofs3 C15.Proofs4 C15.Proofs5.
 
 (* the request for the page after a page that carried paging state [st] *)
 Definition req {Q} (q : Q) (st : list Z) : request Q := mkReq q (wire_ps st).
@@ -222,6 +222,23 @@ Proof.
 Qed.
 Print Assumptions C15_fuel_never_runs_out.
 
+(* 10. "... and otherwise the same statement, values and options" although the caller goes on using
+      its *Query.  A program on one handle is any list of: overwrite the handle ([HSet]: re-bind,
+      change options, Release and reuse), start an iterator from it ([HIter]), one step of iterator
+      number j ([HStep j]: a consumer call or its prefetch goroutine).  For every program, the
+      iterator started at any point of it has, at the end, exactly the outputs and the state
+      (hence the requests, theorem 4) of running alone -- the steps addressed to it, in order --
+      with the configuration the handle had at its Iter() call: nothing done to the handle
+      afterwards, and no other iterator made from it, reaches it. *)
+Theorem C15_handle_reuse : forall R M Q (h0 : qconf M Q) (pre post : list (hop R M Q)) (srv : list (reply R M)),
+  let h1 := fst (hrun (h0, []) pre) in
+  let j := length (snd (hrun (h0, []) pre)) in
+  nth_error (snd (hrun (h0, []) (pre ++ @HIter R M Q srv :: post))) j
+  = Some (mkItr h1 (snd (c_sched h1 (c_open h1 srv) (labels_for j post)))
+                   (fst (c_sched h1 (c_open h1 srv) (labels_for j post)))).
+Proof. exact handle_reuse. Qed.
+Print Assumptions C15_handle_reuse.
+
 (* ---- non-vacuity: the hypotheses are satisfiable by non-trivial values ------------------------- *)
 Example C15_nonvacuous :
   let pages := [([10; 11; 12], [7; 7], 100); ([], [8], 101); ([20], [9; 9; 9], 102)] in
@@ -263,3 +280,18 @@ Example C15_nonvacuous_error :
   /\ page_state (snd (sched 0 false P UseServer 0 (open 0 false P UseServer 0 [6] s) [LScan; LScan; LScan])) = [4]
   /\ m_reqs (snd (sched 0 false P UseServer 0 (open 0 false P UseServer 0 [6] s) [LScan; LScan; LScan])) = [mkReq 0 (Some [6])].
 Proof. cbv zeta. split; [vm_compute; lia|]. repeat split; vm_compute; reflexivity. Qed.
+
+(* two iterators from one handle, re-bound in between and read side by side: each requests its
+   following pages with its own query *)
+Example C15_nonvacuous_handle :
+  let P := prefetch_pos 1 4 in
+  let hA : qconf Z Z := mkConf 1 true P UseServer 0 [] in
+  let hB : qconf Z Z := mkConf 2 true P UseServer 0 [] in
+  let sA := [RPage [10; 11] true [7] 0; RPage [12] false [] 1] in
+  let sB := [RPage [20] true [8] 0; RPage [21; 22] false [] 1] in
+  let prog := [@HIter Z Z Z sA; @HSet Z Z Z hB; @HIter Z Z Z sB; @HStep Z Z Z 0 LScan; @HStep Z Z Z 1 LScan; @HStep Z Z Z 0 LScan; @HStep Z Z Z 1 LScan;
+               @HStep Z Z Z 0 LScan; @HStep Z Z Z 1 LScan; @HStep Z Z Z 0 LScan; @HStep Z Z Z 1 LScan; @HStep Z Z Z 1 LScan] in
+  map (fun it => (it_outs it, m_reqs (it_mach it))) (snd (hrun (hA, []) prog))
+  = [([Some (10, 0); Some (11, 0); Some (12, 1); None], [mkReq 1 None; mkReq 1 (Some [7])]);
+     ([Some (20, 0); Some (21, 1); Some (22, 1); None; None], [mkReq 2 None; mkReq 2 (Some [8])])].
+Proof. vm_compute. reflexivity. Qed.
